@@ -180,7 +180,7 @@ type c33Case struct {
 // so every class of value the API accepts is exercised:
 var (
 	c33PartsDiv    = []int{4096, 4096, 4096, 8192, 8192, 16384, 16384, 32768, 65536, 131072, 262144, 524288} // divide 1 MiB
-	c33PartsNonDiv = []int{12288, 20480, 36864, 102400, 163840, 393216, 786432, 1044480}                      // 4 KiB multiples that do not
+	c33PartsNonDiv = []int{12288, 20480, 36864, 102400, 163840, 393216, 786432, 1044480}                     // 4 KiB multiples that do not
 	c33PartsOdd    = []int{1000, 5120, 7777, 333333}                                                         // not a 4 KiB multiple
 	c33PartsOver   = []int{1572864, 2097152}                                                                 // above the 1 MiB maximum
 )
